@@ -169,6 +169,50 @@ def big_selection_case(ck, rng, tmp):
         ck.violation("view --node selecting more than ten thousand records does not return exactly the records traversing the node, in file order", replay)
 
 
+def empty_gaf_case(ck, rng, tmp):
+    """a GAF without any record, as a 0-byte plain file and as its BGZF copy (only the end-of-file block): every sub-command that
+    takes a GAF must behave the same way on both (the same output, or the same kind of failure)"""
+    g = gen.rgfa(rng, max_ref_segs=4)
+    gfa = os.path.join(tmp, "e.gfa")
+    gen.write_text(gfa, g.text())
+    tsv = os.path.join(tmp, "e.tsv")
+    gen.write_text(tsv, "r1\tH1\t5\tchr1\n")
+    files = {"plain": os.path.join(tmp, "e.gaf"), "bgzf": os.path.join(tmp, "e.gaf.gz")}
+    with open(files["plain"], "w"):
+        pass
+    gen.write_bgzf(files["bgzf"], "")
+    out = os.path.join(tmp, "e.out")
+    res = {}
+    for kind, gaf in files.items():
+        r = {}
+
+        def guard(name, fn):
+            if os.path.exists(out):
+                os.remove(out)
+            try:
+                r[name] = fn()
+            except SystemExit as e:
+                r[name] = "exit:%s" % (e.code,)
+            except BaseException as e:  # noqa
+                r[name] = "fails:%s" % type(e).__name__
+        rd = lambda: [l for l in open(out).read().splitlines() if l.strip()] if os.path.exists(out) else None
+        guard("stat", lambda: (tool("stat", gaf_path=gaf, cigar_stat=True, output=out), rd())[1])
+        guard("view-all", lambda: (tool("view", gaf_path=gaf, output=out), rd())[1])
+        guard("view-stable", lambda: (tool("view", gaf_path=gaf, gfa=gfa, output=out, format="stable"), rd())[1])
+        guard("index", lambda: (tool("index", gaf_path=gaf, gfa_path=gfa), sorted(k for k in pickle.load(open(gaf + ".gvi", "rb")) if k != "ref_contig"))[1])
+        guard("sort", lambda: (tool("sort", gfa=gfa, gaf=gaf, outgaf=out), rd())[1])
+        guard("phase", lambda: (tool("phase", gaf_file=gaf, tsv_file=tsv, output=out), rd())[1])
+        res[kind] = r
+    ck.count("empty-gaf")
+    ck.case({"empty": True}, True)
+    for cmd in res["plain"]:
+        a, b = res["plain"][cmd], res["bgzf"][cmd]
+        ck.count("empty-gaf:%s:%s" % (cmd, "fails-both" if str(a).startswith(("fails", "exit")) and str(b).startswith(("fails", "exit")) else "ok"))
+        if a != b:
+            ck.violation("%s on a GAF without records behaves differently for the plain file (%s) and its BGZF copy (%s)" % (cmd, str(a)[:80], str(b)[:80]),
+                         {"command": cmd, "plain": a, "bgzf": b, "gfa": g.text()[:1500]})
+
+
 def count_bgzf_blocks(path):
     offs, _ = gen.record_offsets(path)
     return len({o >> 16 for o in offs})
@@ -303,6 +347,7 @@ def main():
                 bgzf_model_check(ck, small, sub, "small-blocks" if blk else "blocks-at-record-boundaries")
         for _ in range(1 if quick else 4):
             big_selection_case(ck, rng, tmp)
+        empty_gaf_case(ck, rng, tmp)
     finally:
         shutil.rmtree(tmp, ignore_errors=True)
     ck.rule = "generated graph + GAF (1500 padded records > 64 KiB = several BGZF blocks; smaller files; one file with reads for realign) run through index, view (nodes/region/format/whole), sort(+.gsi), stat, phase, realign, find_path, order_gfa under the four {plain,BGZF} x {plain,gzip} combinations; non-trivial = GAF of >= 2 BGZF blocks or a gzip-compressed graph"
